@@ -565,6 +565,37 @@ func genC14Progs() (string, string) {
 	if fd, ok := g.funcs["NewLabelsFromMappingWithEquals"]; ok {
 		fmt.Fprintf(&b, ",\n  (%s, %s)", leanStr("NewLabelsFromMappingWithEquals"), leanStr(c14NormSrc(fd)))
 	}
+	b.WriteString("]\n\n")
+	// the functions behind the visit model (Model/HeapVisit.lean: walk / forEachService)
+	b.WriteString("/-- normalised source text of the functions the visit model (Model/HeapVisit.lean) is written against -/\ndef visitSources : List (String × String) := [")
+	vis := []struct{ key, typ, name string }{{"ForEachService", "Project", "ForEachService"}, {"withServices", "Project", "withServices"},
+		{"getServicesByNames", "Project", "getServicesByNames"}, {"dependentsForService", "Project", "dependentsForService"},
+		{"ServiceConfig.deepCopy", "ServiceConfig", "deepCopy"}}
+	for i, tx := range vis {
+		s := "missing"
+		if fd, ok := g.methods[tx.typ+"."+tx.name]; ok {
+			s = c14NormSrc(fd)
+		}
+		if i > 0 {
+			b.WriteString(",")
+		}
+		fmt.Fprintf(&b, "\n  (%s, %s)", leanStr(tx.key), leanStr(s))
+	}
+	utilFuncs := map[string]*ast.FuncDecl{}
+	if uf := parse("utils/collectionutils.go"); uf != nil {
+		for _, d := range uf.Decls {
+			if fd, ok := d.(*ast.FuncDecl); ok && fd.Recv == nil {
+				utilFuncs[fd.Name.Name] = fd
+			}
+		}
+	}
+	for _, n := range []string{"MapsAppend", "MapKeys"} {
+		s := "missing"
+		if fd, ok := utilFuncs[n]; ok {
+			s = c14NormSrc(fd)
+		}
+		fmt.Fprintf(&b, ",\n  (%s, %s)", leanStr("utils."+n), leanStr(s))
+	}
 	b.WriteString("]\n\nend CV.Gen.C14Progs\n")
 	fmt.Fprintf(logw, "c14 programs: %d skeletons (%d unknown statements), %d mirrored sources\n", len(names), unknown, len(texts)+1)
 	return "C14Progs.lean", b.String()
